@@ -10,7 +10,7 @@ use harness::ShapeDyn;
 use refmodel::model::{caps, enabled_ops, predict, Expect};
 use refmodel::ops::{Kind, Op, OpOut, PathOp};
 use refmodel::tree::decode_tree;
-use refmodel::values::{enum_values, Limits};
+use refmodel::values::{enum_values, scale_ladder, scaled_value, Limits};
 use refmodel::{decode, encode, Desc, Value};
 use serde_json::json;
 use stateright::{Checker, Model, Property};
@@ -124,8 +124,8 @@ fn step(s: &dyn ShapeDyn, d: &Desc, img: &[u8], pop: &PathOp) -> StepResult {
     let n = img.len();
     ARENA.with(|cell| {
         let mut g = cell.borrow_mut();
-        if g.as_ref().map(|a| a as *const _).is_none() {
-            *g = Some(Arena::new(4096));
+        if g.as_ref().map(|a| a.capacity() < n).unwrap_or(true) {
+            *g = Some(Arena::new(n.max(4096)));
         }
         let arena = g.as_mut().unwrap();
         let mut slot = arena.place(n, 0, 0);
@@ -332,40 +332,7 @@ impl Model for HModel {
         // stateright runs this on its own worker thread, which goes away with the checker: never
         // leave its journal slot marked as "inside a case"
         harness::report::journal_idle();
-        let id = self.s.id();
-        let fam = family(id);
-        let mut g = self.sink.lock().unwrap();
-        for p in &self.want {
-            if let Some(a) = g.get_mut(p) {
-                let mine = match *p {
-                    "C11" | "C12" | "C18" => owner(&pop.op) == *p,
-                    "C13" => r.refused.is_some() || r.viol.iter().any(|v| v.0 == "C13"),
-                    _ => true,
-                };
-                if mine && r.outcome != "not_applicable" {
-                    a.transitions += 1;
-                    a.evaluations += 1;
-                    a.count(r.outcome, 1);
-                    a.distinct.insert(format!("{}:{}:{}", id, op_name(&pop.op), r.outcome));
-                    if let Some(c) = r.refused {
-                        a.count(&format!("refused[{}]", c), 1);
-                    }
-                    if a.samples.len() < 3 && r.outcome == "ok" && st.img.len() > self.d.min_size() {
-                        a.sample(json!({"shape": id, "n": self.n, "pre_image": hex(&st.img), "op": format!("{:?}", pop), "post_image": r.post.as_ref().map(|p| hex(p))}));
-                    }
-                }
-            }
-        }
-        for (p, key, detail) in &r.viol {
-            if let Some(a) = g.get_mut(p) {
-                a.violate(
-                    format!("hist/{}/{}", key, fam),
-                    format!("{} n={} image={} op={:?}: {}", id, self.n, hex(&st.img), pop, detail),
-                    json!({"engine": "hist", "shape": id, "image": hex(&st.img), "op": format!("{:?}", pop), "path": pop.path, "opidx": -1}),
-                );
-            }
-        }
-        drop(g);
+        record(&self.sink, &self.want, self.s, self.n, &st.img, &pop, &r, &self.d, Origin::Search);
         if !r.viol.is_empty() {
             // a state that only exists because of a violation is recorded, not expanded
             return None;
@@ -376,6 +343,197 @@ impl Model for HModel {
     fn properties(&self) -> Vec<Property<Self>> {
         vec![Property::always("explore", |_, _| true)]
     }
+}
+
+/// Where the pre-state of a judged transition comes from.
+#[derive(Clone, Copy)]
+enum Origin {
+    /// a state of the BFS (recorded by its byte image)
+    Search,
+    /// reference image of `scaled_value(N)` with `slack` spare bytes
+    Ladder(usize, usize),
+    /// reference image of small value number `vi` in a buffer of `b` bytes
+    Big(usize, usize),
+}
+
+/// Account one judged transition (counters, samples, violations) under the properties it belongs to.
+/// `scale`: the pre-state is the reference image of `scaled_value(N)` with `slack` spare bytes; it is recorded
+/// by those two numbers instead of its (large) byte image.
+#[allow(clippy::too_many_arguments)]
+fn record(sink: &Arc<Mutex<Accs>>, want: &[&'static str], s: &dyn ShapeDyn, n: usize, img: &[u8], pop: &PathOp, r: &StepResult, d: &Desc, scale: Origin) {
+    let id = s.id();
+    let fam = family(id);
+    let mut g = sink.lock().unwrap();
+    for p in want {
+        if let Some(a) = g.get_mut(p) {
+            let mine = match *p {
+                "C11" | "C12" | "C18" => owner(&pop.op) == *p,
+                "C13" => r.refused.is_some() || r.viol.iter().any(|v| v.0 == "C13"),
+                _ => true,
+            };
+            if mine && r.outcome != "not_applicable" {
+                a.transitions += 1;
+                a.evaluations += 1;
+                a.count(r.outcome, 1);
+                match scale {
+                    Origin::Ladder(nn, _) => {
+                        a.count("scale_ladder_steps", 1);
+                        a.distinct.insert(format!("{}:scale{}:{}:{}", id, nn, op_name(&pop.op), r.outcome));
+                    }
+                    Origin::Big(b, _) => {
+                        a.count("big_buffer_steps", 1);
+                        a.distinct.insert(format!("{}:big{}:{}:{}", id, b, op_name(&pop.op), r.outcome));
+                    }
+                    Origin::Search => {
+                        a.distinct.insert(format!("{}:{}:{}", id, op_name(&pop.op), r.outcome));
+                    }
+                }
+                if let Some(c) = r.refused {
+                    a.count(&format!("refused[{}]", c), 1);
+                }
+                if matches!(scale, Origin::Search) && a.samples.len() < 3 && r.outcome == "ok" && img.len() > d.min_size() {
+                    a.sample(json!({"shape": id, "n": n, "pre_image": hex(img), "op": format!("{:?}", pop), "post_image": r.post.as_ref().map(|p| hex(p))}));
+                }
+            }
+        }
+    }
+    for (p, key, detail) in &r.viol {
+        if let Some(a) = g.get_mut(p) {
+            let optxt: String = format!("{:?}", pop).chars().take(300).collect();
+            match scale {
+                Origin::Search => a.violate(
+                    format!("hist/{}/{}", key, fam),
+                    format!("{} n={} image={} op={:?}: {}", id, n, hex(img), pop, detail),
+                    json!({"engine": "hist", "shape": id, "image": hex(img), "op": format!("{:?}", pop), "path": pop.path, "opidx": -1}),
+                ),
+                Origin::Ladder(nn, slack) => a.violate(
+                    format!("hist/{}/{}", key, fam),
+                    format!("{} scale N={} slack={} (buffer {} bytes) op={}: {}", id, nn, slack, n, optxt, detail.chars().take(600).collect::<String>()),
+                    json!({"engine": "hist", "shape": id, "scale": nn, "slack": slack, "op": format!("{:?}", pop), "path": pop.path}),
+                ),
+                Origin::Big(b, vi) => a.violate(
+                    format!("hist/{}/{}", key, fam),
+                    format!("{} small value #{} in a buffer of {} bytes, op={}: {}", id, vi, b, optxt, detail.chars().take(600).collect::<String>()),
+                    json!({"engine": "hist", "shape": id, "big_buffer": b, "vi": vi, "image": if img.len() <= 1024 { json!(hex(img)) } else { json!(null) }, "op": format!("{:?}", pop), "path": pop.path}),
+                ),
+            }
+        }
+    }
+}
+
+/// The operations tried from a ladder state: everything on the container itself and on its first, middle and
+/// last element / item (the per-item operations of the thousands of items in between are the same code on the
+/// same kind of data).
+fn scale_ops(all: Vec<PathOp>, nn: usize) -> Vec<PathOp> {
+    let keep_idx = [0usize, 1, nn / 2, nn.saturating_sub(2), nn.saturating_sub(1)];
+    let mut out: Vec<PathOp> = all
+        .into_iter()
+        .filter(|p| {
+            // the element index is the last path component that can exceed 3 (field / payload indices are small)
+            p.path.iter().all(|i| *i < 4 || keep_idx.contains(i))
+        })
+        .collect();
+    // index-carrying operations at the far end as well
+    let mut extra = vec![];
+    for p in &out {
+        match &p.op {
+            Op::VecRemove(0) => {
+                for i in [nn / 2, nn.saturating_sub(1)] {
+                    extra.push(PathOp { path: p.path.clone(), op: Op::VecRemove(i) });
+                    extra.push(PathOp { path: p.path.clone(), op: Op::VecSwapRemove(i) });
+                }
+            }
+            Op::VecTruncate(0) => {
+                for k in [nn / 2, nn.saturating_sub(1), nn, nn + 1] {
+                    extra.push(PathOp { path: p.path.clone(), op: Op::VecTruncate(k) });
+                }
+            }
+            Op::FlexTruncate(0) => {
+                for k in [nn / 2, nn.saturating_sub(1), nn, nn + 1] {
+                    extra.push(PathOp { path: p.path.clone(), op: Op::FlexTruncate(k) });
+                }
+            }
+            Op::VecSet(0, x) => {
+                for i in [nn / 2, nn.saturating_sub(1)] {
+                    extra.push(PathOp { path: p.path.clone(), op: Op::VecSet(i, x.clone()) });
+                }
+            }
+            _ => {}
+        }
+    }
+    out.extend(extra);
+    out
+}
+
+/// Operations whose ARGUMENT is large: extend / push_str up to and past the capacity, pushes of items whose
+/// sealing offset lies around the maximum of the offset type — at every path where the small alphabet has
+/// the corresponding small operation.
+fn big_ops(d: &Desc, tree: &refmodel::tree::TNode, small: &[PathOp]) -> Vec<PathOp> {
+    use refmodel::model::desc_at;
+    use refmodel::tree::TKind;
+    let mut out = vec![];
+    let mut seen: Vec<Vec<usize>> = vec![];
+    for p in small {
+        if seen.contains(&p.path) || p.path.iter().any(|i| *i > 3) {
+            continue;
+        }
+        let node = match tree.at_path(&p.path) {
+            Some(n) => n,
+            None => continue,
+        };
+        let nd = desc_at(d, tree, &p.path);
+        match (&p.op, &node.kind, nd) {
+            (Op::VecPush(x), TKind::Vec { cap, items, .. }, Desc::Vec { len, .. }) => {
+                seen.push(p.path.clone());
+                let room = cap.saturating_sub(items.len());
+                let lmax = len.max().min(1 << 20) as usize;
+                let mut ks = vec![room.saturating_sub(1), room, room + 1, lmax.saturating_sub(items.len()), lmax + 1];
+                ks.retain(|k| *k > 5 && *k <= 70_100);
+                ks.sort();
+                ks.dedup();
+                for k in ks {
+                    out.push(PathOp { path: p.path.clone(), op: Op::VecExtend((0..k).map(|_| x.clone()).collect()) });
+                }
+                if *cap > 8 && *cap <= 70_100 {
+                    out.push(PathOp { path: p.path.clone(), op: Op::VecResize(*cap, x.clone()) });
+                    out.push(PathOp { path: p.path.clone(), op: Op::VecResize(*cap + 1, x.clone()) });
+                }
+            }
+            (Op::StrPush(_), TKind::Str { cap, bytes, .. }, _) => {
+                seen.push(p.path.clone());
+                let room = cap.saturating_sub(bytes.len());
+                let mut ks = vec![room.saturating_sub(1), room, room + 1];
+                ks.retain(|k| *k > 5 && *k <= 70_100);
+                ks.dedup();
+                for k in ks {
+                    out.push(PathOp { path: p.path.clone(), op: Op::StrPushStr("x".repeat(k)) });
+                    if k >= 2 {
+                        out.push(PathOp { path: p.path.clone(), op: Op::StrPushStr(format!("{}é", "y".repeat(k - 2))) });
+                    }
+                }
+            }
+            (Op::FlexPush(_, kind), TKind::Flex { .. }, Desc::Flex { item, len }) => {
+                seen.push(p.path.clone());
+                // element counts that put the item's sealing offset just below, at and above the offset type's maximum
+                let lmax = len.max().min(1 << 17) as usize;
+                let mut ks: Vec<usize> = vec![100, 200];
+                for dlt in 0..8usize {
+                    ks.push(lmax.saturating_sub(dlt));
+                }
+                ks.push(lmax + 1);
+                ks.retain(|k| *k > 5 && *k <= 70_100);
+                ks.sort();
+                ks.dedup();
+                for k in ks {
+                    if let Some(v) = scaled_value(item, k) {
+                        out.push(PathOp { path: p.path.clone(), op: Op::FlexPush(v, *kind) });
+                    }
+                }
+            }
+            _ => {}
+        }
+    }
+    out
 }
 
 fn top_kind(d: &Desc) -> &'static str {
@@ -535,6 +693,91 @@ impl Engine for Hist {
                 }
             }
         }
+        // ---------------- scale ladder: single transitions (and the refusals at the full mark) from states far
+        // beyond the small scope — container sizes around every power of two up to the 16-bit boundary
+        let flex_top = matches!(kind, "flex") || format!("{:?}", d).contains("Flex");
+        for nn in scale_ladder(thorough) {
+            if flex_top && nn > 4100 {
+                continue; // a chain of tens of thousands of items makes every step quadratic; stated in DESIGN.md
+            }
+            let v = match scaled_value(&d, nn) {
+                Some(v) => v,
+                None => continue,
+            };
+            let need = match encode(&d, &v, nn * 64 + 4096, 0) {
+                Ok(i) => i.extent,
+                Err(_) => continue,
+            };
+            for slack in [0usize, es, 2 * es + 1] {
+                let n = need + slack;
+                let img = match encode(&d, &v, n, 0xEE) {
+                    Ok(i) => i.bytes,
+                    Err(_) => continue,
+                };
+                let tree = match decode_tree(&d, &img) {
+                    Ok((t, _)) => t,
+                    Err(_) => continue,
+                };
+                for pop in scale_ops(enabled_ops(&d, &tree, false), nn) {
+                    journal(format!("hist-scale {} N={} slack={} op={:?}", id, nn, slack, pop).as_bytes());
+                    let r = step(s, &d, &img, &pop);
+                    harness::report::journal_idle();
+                    record(&sink, &want, s, n, &img, &pop, &r, &d, Origin::Ladder(nn, slack));
+                }
+                let mut g = sink.lock().unwrap();
+                for a in g.values_mut() {
+                    a.states += 1;
+                }
+            }
+        }
+        // ---------------- small contents in large buffers (capacities beyond the length type's maximum, sealing
+        // offsets at the maximum of the offset type), with large arguments
+        {
+            let small_vals = enum_values(&d, min + 3 * a + 12, &Limits::quick());
+            let mut picks: Vec<Value> = vec![];
+            if let Some(v) = small_vals.first() {
+                picks.push(v.clone());
+            }
+            if let Some(v) = small_vals.last() {
+                picks.push(v.clone());
+            }
+            if let Desc::Enum { variants, .. } = &d {
+                for vi in 0..variants.len() {
+                    if let Some(v) = small_vals.iter().find(|v| matches!(v, Value::Enum(t, _) if *t == vi)) {
+                        picks.push(v.clone());
+                    }
+                }
+            }
+            picks.sort();
+            picks.dedup();
+            let mut buffers: Vec<usize> = if thorough { buffer_ladder(true) } else { vec![128, 256, 257, 258, 260, 264, 300, 520] };
+            buffers.retain(|b| *b <= 66_000);
+            for (bi, b) in buffers.iter().enumerate() {
+                for (vi, v) in picks.iter().enumerate() {
+                    let img = match encode(&d, v, *b, if (bi + vi) % 2 == 0 { 0xEE } else { 0x00 }) {
+                        Ok(i) => i.bytes,
+                        Err(_) => continue,
+                    };
+                    let tree = match decode_tree(&d, &img) {
+                        Ok((t, _)) => t,
+                        Err(_) => continue,
+                    };
+                    let small = enabled_ops(&d, &tree, false);
+                    let mut ops = big_ops(&d, &tree, &small);
+                    ops.extend(small.into_iter().filter(|p| p.path.iter().all(|i| *i < 4)));
+                    for pop in ops {
+                        journal(format!("hist-big {} B={} vi={} op={:?}", id, b, vi, pop).chars().take(700).collect::<String>().as_bytes());
+                        let r = step(s, &d, &img, &pop);
+                        harness::report::journal_idle();
+                        record(&sink, &want, s, *b, &img, &pop, &r, &d, Origin::Big(*b, vi));
+                    }
+                    let mut g = sink.lock().unwrap();
+                    for a in g.values_mut() {
+                        a.states += 1;
+                    }
+                }
+            }
+        }
         let _ = (total_states, closed, capped, encode(&d, &Value::Unit, 0, 0).is_ok());
         let mut m = std::mem::take(&mut *sink.lock().unwrap());
         for (p, a) in m.iter_mut() {
@@ -548,10 +791,61 @@ impl Engine for Hist {
 
     fn replay(&self, s: &'static dyn ShapeDyn, case: &serde_json::Value) -> bool {
         let d = s.desc();
-        let img = unhex(case["image"].as_str().unwrap());
         let want = case["op"].as_str().unwrap_or("");
         let mut found = None;
-        if let Ok((t, _)) = decode_tree(&d, &img) {
+        let img = if let Some(nn) = case["scale"].as_u64() {
+            // a ladder state: rebuilt from its size and slack
+            let nn = nn as usize;
+            let v = scaled_value(&d, nn).expect("scaled value");
+            let need = encode(&d, &v, nn * 64 + 4096, 0).expect("encode").extent;
+            let img = encode(&d, &v, need + case["slack"].as_u64().unwrap_or(0) as usize, 0xEE).expect("encode").bytes;
+            if let Ok((t, _)) = decode_tree(&d, &img) {
+                found = scale_ops(enabled_ops(&d, &t, false), nn).into_iter().find(|op| format!("{:?}", op) == want);
+            }
+            img
+        } else if let Some(b) = case["big_buffer"].as_u64() {
+            let (min, a) = (d.min_size(), d.align());
+            let small_vals = enum_values(&d, min + 3 * a + 12, &Limits::quick());
+            let mut picks: Vec<Value> = vec![];
+            if let Some(v) = small_vals.first() {
+                picks.push(v.clone());
+            }
+            if let Some(v) = small_vals.last() {
+                picks.push(v.clone());
+            }
+            if let Desc::Enum { variants, .. } = &d {
+                for vi in 0..variants.len() {
+                    if let Some(v) = small_vals.iter().find(|v| matches!(v, Value::Enum(t, _) if *t == vi)) {
+                        picks.push(v.clone());
+                    }
+                }
+            }
+            picks.sort();
+            picks.dedup();
+            let vi = case["vi"].as_u64().unwrap_or(0) as usize;
+            let mut img = vec![];
+            for fill in [0xEEu8, 0x00] {
+                // the fill alternates with the position in the ladder; the op is looked up on both
+                if let Ok(i) = encode(&d, &picks[vi], b as usize, fill) {
+                    if let Ok((t, _)) = decode_tree(&d, &i.bytes) {
+                        let small = enabled_ops(&d, &t, false);
+                        let mut ops = big_ops(&d, &t, &small);
+                        ops.extend(small);
+                        if let Some(op) = ops.into_iter().find(|op| format!("{:?}", op) == want) {
+                            found = Some(op);
+                            img = i.bytes;
+                            if case["image"].as_str().map(|h| unhex(h) == img).unwrap_or(true) {
+                                break;
+                            }
+                        }
+                    }
+                }
+            }
+            img
+        } else {
+            unhex(case["image"].as_str().unwrap())
+        };
+        if let (None, Ok((t, _))) = (&found, decode_tree(&d, &img)) {
             for th in [false, true] {
                 for op in enabled_ops(&d, &t, th) {
                     if format!("{:?}", op) == want {
@@ -568,7 +862,11 @@ impl Engine for Hist {
             }
         };
         let r = step(s, &d, &img, &pop);
-        println!("shape {}  image {}  (reference: {:?})", s.id(), hex(&img), decode(&d, &img).map(|x| x.value));
+        if img.len() <= 256 {
+            println!("shape {}  image {}  (reference: {:?})", s.id(), hex(&img), decode(&d, &img).map(|x| x.value));
+        } else {
+            println!("shape {}  image of {} bytes (ladder state)", s.id(), img.len());
+        }
         println!("op {:?}", pop);
         println!("post image {:?}  outcome {}", r.post.as_ref().map(|p| hex(p)), r.outcome);
         for (p, k, dt) in &r.viol {
